@@ -14,12 +14,23 @@
      "weq"     in  = [s1, e1, s2, e2]       out = [a == b, hash(a) == hash(b), a.cmp(b), a.partial_cmp(b)]
      "weqrow"  in  = [s1, e1, n]            out = one such entry per (s2, e2) in 0..n x 0..n, s2-major
                (cmp as -1/0/1, partial_cmp likewise or null for None)
+     "wnew"    in  = [s, e]     out = ["ok",[s,e],[s',e']] | ["panic"]   (Window::new, serde round trip)
+     "tsp"     in  = [entry, [sel,c], keyed, size, off, events, stage, runs]      out = [outcome per run]
+               entry 0 Timestamped::new | 1 attach_timestamps(ts_fn) | 2 to_timestamped (+ key_by when keyed);
+               stage 0 stamped stream | 1 key_by_window | 2 group_by_(key_and_)window;
+               runs = [[parts, threads, coll] ..] on clones of one collection; coll 0 collect_seq/par,
+               1 collect_*_sorted, 2 collect_par_sorted_by_key, 3 checkpointing runner;
+               rows [k,ts,[v]] / [k,start,end,[v]] / [k,start,end,[v..]] in collector order
+     "wjoin"   in  = [jkind, keyed, lside, rside, xp, runs]    out = [outcome per run], rows [k,start,end,L,R]
+               side = [0, [[k,s,e,val]..]] | [stage, entry, [sel,c], size, off, events]
+     "gbig"    in  = [via, keyed, size, off, n, t0, a, m, nk, parts, threads, wb, nt]
+               out = ["ok", [[k,start,end,digest..]..sorted]] | ["panic"]
    u64 values are JSON ints below 2^62, decimal strings otherwise (both accepted everywhere).
    events = [[k, ts, v] ..] (k is ignored by the unkeyed API, then reported as 0);
    parts = 0: collect_seq, parts = n > 0: collect_par(Some(threads), Some(n));
    tagged = [[k, start, end, v] ..] sorted; groups = [[k, start, end, [v ..sorted]] ..] sorted. *)
 From Coq Require Import List ZArith Bool String Ascii.
-From IB Require Import Util.J Window.Tumble Window.Grouping.
+From IB Require Import Util.J Window.Tumble Window.Grouping Window.Timestamped Window.Join Window.Collect.
 Import ListNotations.
 Open Scope Z_scope.
 
@@ -309,8 +320,459 @@ Definition prop_gmix (s1 s2 off : Z) (evs : list event) (obs : lobs) : bool :=
 Definition known_events_mixed (s1 s2 off : Z) (evs : list event) : bool :=
   existsb (fun e => known_class (fst (snd e)) (mixed_size s1 s2 e) off) evs.
 
+(* =====================================================================================
+   entry points of helpers/timestamped.rs, collectors, window groupings feeding joins
+   (kinds wnew / tsp / wjoin / gbig)
+   ===================================================================================== *)
+
+(* ---------- cells and rows ---------- *)
+Inductive cell := CI (z : Z) | CL (l : list Z) | CN.
+Definition row := list cell.
+
+Definition dec_cell (j : J) : option cell :=
+  match j with
+  | JN => Some CN
+  | JI z => Some (CI z)
+  | JS _ => option_map CI (ju64 j)
+  | JL l => option_map CL (omap jint l)
+  | _ => None
+  end.
+Definition dec_row (j : J) : option row := match j with JL l => omap dec_cell l | _ => None end.
+
+Inductive robs := ROk (rows : list row) | RPanic | RErr.
+Definition dec_run (j : J) : option robs :=
+  match j with
+  | JL [t] => if jtag_is "panic" t then Some RPanic else None
+  | JL [t; JL l] => if jtag_is "ok" t then option_map ROk (omap dec_row l) else None
+  | JL [t; JS _] => if jtag_is "err" t then Some RErr else None
+  | _ => None
+  end.
+
+(* the derived orders of the Rust row types: integers, Vec<i64> lexicographically (a proper
+   prefix is smaller), None < Some, tuples / Window { start, end } component by component *)
+Fixpoint zl_cmp (a b : list Z) : comparison :=
+  match a, b with
+  | [], [] => Eq
+  | [], _ :: _ => Lt
+  | _ :: _, [] => Gt
+  | x :: a', y :: b' => match x ?= y with Eq => zl_cmp a' b' | c => c end
+  end.
+Definition cell_cmp (a b : cell) : comparison :=
+  match a, b with
+  | CN, CN => Eq
+  | CN, _ => Lt
+  | _, CN => Gt
+  | CI x, CI y => x ?= y
+  | CI _, CL _ => Lt
+  | CL _, CI _ => Gt
+  | CL x, CL y => zl_cmp x y
+  end.
+Fixpoint row_cmp (a b : row) : comparison :=
+  match a, b with
+  | [], [] => Eq
+  | [], _ :: _ => Lt
+  | _ :: _, [] => Gt
+  | x :: a', y :: b' => match cell_cmp x y with Eq => row_cmp a' b' | c => c end
+  end.
+Definition key3 (r : row) : row := firstn 3 r.
+Definition key_cmp (a b : row) : comparison := row_cmp (key3 a) (key3 b).
+Definition row_eqb (a b : row) : bool := match row_cmp a b with Eq => true | _ => false end.
+Fixpoint rows_eqb (a b : list row) : bool :=
+  match a, b with
+  | [], [] => true
+  | x :: a', y :: b' => row_eqb x y && rows_eqb a' b'
+  | _, _ => false
+  end.
+Definition rows_multiset_eqb (a b : list row) : bool :=
+  rows_eqb (sort_by row_cmp a) (sort_by row_cmp b).
+Fixpoint sorted_by (cmp : row -> row -> comparison) (l : list row) : bool :=
+  match l with
+  | x :: ((y :: _) as r) => le_of cmp x y && sorted_by cmp r
+  | _ => true
+  end.
+
+(* ---------- the collectors ---------- *)
+Definition apply_coll (coll : Z) (rows : list row) : list row :=
+  if coll =? 1 then sort_by row_cmp rows
+  else if coll =? 2 then sort_by key_cmp rows
+  else rows.
+(* the collector's output order is determined (no HashMap iteration shows through) *)
+Definition exact_order (hashed : bool) (coll : Z) : bool := (coll =? 1) || (coll =? 2) || negb hashed.
+Definition coll_ok (stage parts coll : Z) : bool :=
+  (0 <=? coll) && (coll <=? 3) && (0 <=? parts)
+  && implb (coll =? 2) (1 <=? parts)
+  && implb (stage =? 0) ((coll =? 0) || (coll =? 3)).
+
+Definition agree_run (hashed : bool) (coll : Z) (obs : robs) (model : outcome (list row)) : bool :=
+  match obs, model with
+  | ROk rows, Ok m =>
+      let m' := apply_coll coll m in
+      if exact_order hashed coll then rows_eqb rows m' else rows_multiset_eqb rows m'
+  | RPanic, Panic => true
+  | _, _ => false
+  end.
+(* reference side: nothing lost / duplicated / misplaced, and the sorted collectors sort *)
+Definition prop_run (coll : Z) (obs : robs) (ref_rows : list row) : bool :=
+  match obs with
+  | ROk rows =>
+      rows_multiset_eqb rows ref_rows
+      && (if coll =? 1 then sorted_by row_cmp rows else if coll =? 2 then sorted_by key_cmp rows else true)
+  | _ => false
+  end.
+
+(* ---------- the stamped stream ---------- *)
+Definition ev_k (e : event) : Z := fst e.
+Definition ev_ts (e : event) : Z := fst (snd e).
+Definition ev_v (e : event) : Z := snd (snd e).
+
+(* the harness's ts_fn family [sel, c] over u64 *)
+Definition tsf_apply (sel c x : Z) : Z :=
+  if sel =? 0 then x else if sel =? 1 then c else if sel =? 2 then (x + c) mod U64 else U64 - 1 - x.
+
+Fixpoint iota (fuel : nat) (i : Z) : list Z :=
+  match fuel with O => [] | S f => i :: iota f (i + 1) end.
+(* entry >= 1: the harness looks timestamps / keys up by value, so v must be the event index *)
+Definition indexed (evs : list event) : bool := zlist_eqb (map ev_v evs) (iota (List.length evs) 0).
+Definition entry_ok (entry sel : Z) (evs : list event) : bool :=
+  (0 <=? entry) && (entry <=? 2) && (0 <=? sel) && (sel <=? 3)
+  && ((entry =? 1) || (sel =? 0)) && ((entry =? 0) || indexed evs).
+
+(* model: the source partition `p` of the event list `all` through the entry point *)
+Definition stamp_u (entry sel c : Z) (all p : list event) : list (Z * Z) :=
+  if entry =? 0 then map (fun e => timestamped_new (ev_ts e) (ev_v e)) p
+  else if entry =? 1 then
+    attach_timestamps (fun v => tsf_apply sel c (nth (Z.to_nat v) (map ev_ts all) 0)) (map ev_v p)
+  else to_timestamped (map (fun e => (ev_ts e, ev_v e)) p).
+Definition stamp_k (entry sel c : Z) (all p : list event) : list (Z * (Z * Z)) :=
+  if entry =? 0 then map (fun e => (ev_k e, timestamped_new (ev_ts e) (ev_v e))) p
+  else key_by (fun tv : Z * Z => nth (Z.to_nat (snd tv)) (map ev_k all) 0) (stamp_u entry sel c all p).
+
+Definition cells3 (k s e : Z) : row := [CI k; CI s; CI e].
+Definition row_stamp_u (x : Z * Z) : row := [CI 0; CI (fst x); CL [snd x]].
+Definition row_stamp_k (x : Z * (Z * Z)) : row := [CI (fst x); CI (fst (snd x)); CL [snd (snd x)]].
+Definition row_tag_u (x : window * Z) : row := cells3 0 (fst (fst x)) (snd (fst x)) ++ [CL [snd x]].
+Definition row_tag_k (x : (Z * window) * Z) : row :=
+  cells3 (fst (fst x)) (fst (snd (fst x))) (snd (snd (fst x))) ++ [CL [snd x]].
+Definition row_grp_u (g : window * list Z) : row := cells3 0 (fst (fst g)) (snd (fst g)) ++ [CL (snd g)].
+Definition row_grp_k (g : (Z * window) * list Z) : row :=
+  cells3 (fst (fst g)) (fst (snd (fst g))) (snd (snd (fst g))) ++ [CL (snd g)].
+
+Definition model_tsp (entry sel c : Z) (keyed : bool) (size off : Z) (evs : list event) (stage : Z)
+           (ps : list (list event)) : outcome (list row) :=
+  if keyed then
+    let sps := map (stamp_k entry sel c evs) ps in
+    if stage =? 0 then Ok (map row_stamp_k (List.concat sps))
+    else if stage =? 1 then
+      t <- key_by_window_keyed tumble_debug size off sps ;; Ok (map row_tag_k (List.concat t))
+    else g <- group_by_key_and_window Z.eqb tumble_debug size off sps ;; Ok (map row_grp_k g)
+  else
+    let sps := map (stamp_u entry sel c evs) ps in
+    if stage =? 0 then Ok (map row_stamp_u (List.concat sps))
+    else if stage =? 1 then
+      t <- key_by_window_unkeyed tumble_debug size off sps ;; Ok (map row_tag_u (List.concat t))
+    else g <- group_by_window tumble_debug size off sps ;; Ok (map row_grp_u g).
+
+(* ---------- reference (NOT the model): list comprehension over the events ---------- *)
+Definition ref_ts (entry sel c : Z) (e : event) : Z :=
+  if entry =? 1 then tsf_apply sel c (ev_ts e) else ev_ts e.
+Definition ref_key (entry sel c : Z) (keyed : bool) (size off : Z) (e : event) : list Z :=
+  let s := ref_start (ref_ts entry sel c e) size off in
+  [(if keyed then ev_k e else 0); s; s + size].
+Definition dedup_l (l : list (list Z)) : list (list Z) :=
+  fold_left (fun acc x => if existsb (zlist_eqb x) acc then acc else acc ++ [x]) l [].
+(* (key, values) rows of the three stages *)
+Definition ref_side (entry sel c : Z) (keyed : bool) (size off : Z) (evs : list event) (stage : Z)
+  : list (list Z * list Z) :=
+  if stage =? 0 then map (fun e => ([(if keyed then ev_k e else 0); ref_ts entry sel c e], [ev_v e])) evs
+  else if stage =? 1 then map (fun e => (ref_key entry sel c keyed size off e, [ev_v e])) evs
+  else
+    map (fun k => (k, map ev_v (filter (fun e => zlist_eqb (ref_key entry sel c keyed size off e) k) evs)))
+        (dedup_l (map (ref_key entry sel c keyed size off) evs)).
+Definition ref_row (kv : list Z * list Z) : row := map CI (fst kv) ++ [CL (snd kv)].
+
+Definition known_side (entry sel c size off : Z) (evs : list event) (stage : Z) : bool :=
+  (1 <=? stage) && existsb (fun e => known_class (ref_ts entry sel c e) size off) evs.
+
+(* runs = [[parts, threads, coll] ..] *)
+Definition dec_runspec (j : J) : option (Z * Z) :=
+  match j with JL [JI parts; JI _threads; JI coll] => Some (parts, coll) | _ => None end.
+
+Definition parts_of {A} (parts : Z) (l : list A) : list (list A) :=
+  if parts =? 0 then [l] else split_parts parts l.
+
+(* all runs of one case: (every run well-formed, every run agrees, every run meets the reference) *)
+Fixpoint judge_runs (stage : Z) (hashed vacuous : bool) (model : Z -> outcome (list row))
+         (ref_rows : list row) (runs : list (Z * Z)) (obs : list J) : option (bool * bool) :=
+  match runs, obs with
+  | [], [] => Some (true, true)
+  | (parts, coll) :: runs', o :: obs' =>
+      match dec_run o, judge_runs stage hashed vacuous model ref_rows runs' obs' with
+      | Some ob, Some (a, p) =>
+          if coll_ok stage parts coll then
+            Some (agree_run hashed coll ob (model parts) && a,
+                  (vacuous || prop_run coll ob ref_rows) && p)
+          else None
+      | _, _ => None
+      end
+  | _, _ => None
+  end.
+
+Definition check_tsp (input output : J) : verdict :=
+  match input, output with
+  | JL [JI entry; JL [JI sel; jc]; jk; js; jo; jevs; JI stage; JL jruns], JL obs =>
+      match ju64 jc, jflag jk, ju64 js, ju64 jo, dec_events jevs, omap dec_runspec jruns with
+      | Some c, Some keyed, Some size, Some off, Some evs, Some runs =>
+          if entry_ok entry sel evs && (0 <=? stage) && (stage <=? 2) then
+            let model := fun parts => model_tsp entry sel c keyed size off evs stage (parts_of parts evs) in
+            let ref_rows := map ref_row (ref_side entry sel c keyed size off evs stage) in
+            let vacuous := (1 <=? stage) && (size <? 1) in
+            match judge_runs stage (stage =? 2) vacuous model ref_rows runs obs with
+            | Some (a, p) => V a p (known_side entry sel c size off evs stage) false
+            | None => malformed
+            end
+          else malformed
+      | _, _, _, _, _, _ => malformed
+      end
+  | _, _ => malformed
+  end.
+
+(* ---------- window groupings feeding joins ---------- *)
+Inductive sidespec :=
+| STab (rows : list (list Z))
+| SWin (stage entry sel c size off : Z) (evs : list event).
+
+Definition dec_tabrow (j : J) : option (list Z) :=
+  match j with
+  | JL [JI k; js; je; JI v] =>
+      match ju64 js, ju64 je with Some s, Some e => Some [k; s; e; v] | _, _ => None end
+  | _ => None
+  end.
+Definition dec_side (j : J) : option sidespec :=
+  match j with
+  | JL [JI 0; JL rows] => option_map STab (omap dec_tabrow rows)
+  | JL [JI stage; JI entry; JL [JI sel; jc]; js; jo; jevs] =>
+      match ju64 jc, ju64 js, ju64 jo, dec_events jevs with
+      | Some c, Some size, Some off, Some evs =>
+          if ((stage =? 1) || (stage =? 2)) && entry_ok entry sel evs
+          then Some (SWin stage entry sel c size off evs) else None
+      | _, _, _, _ => None
+      end
+  | _ => None
+  end.
+
+Definition jkey : Type := (Z * window)%type.
+Definition jkey_eqb : jkey -> jkey -> bool := kw_eqb Z.eqb.
+
+(* one side's sub-plan: the typed model functions, their result embedded into (K = (k, window)
+   with k = 0 for the unkeyed API, values as lists: a single value v as [v]) *)
+Definition side_model (keyed : bool) (sp : sidespec) (parts : Z) : outcome (list (list (jkey * list Z))) :=
+  match sp with
+  | STab rows =>
+      Ok [map (fun r => match r with
+                        | [k; s; e; v] => (((if keyed then k else 0), (s, e)), [v])
+                        | _ => ((0, (0, 0)), [])
+                        end) rows]
+  | SWin stage entry sel c size off evs =>
+      let ps := parts_of parts evs in
+      if keyed then
+        let sps := map (stamp_k entry sel c evs) ps in
+        if stage =? 1 then
+          t <- key_by_window_keyed tumble_debug size off sps ;;
+          Ok (map (map (fun x : (Z * window) * Z => (fst x, [snd x]))) t)
+        else sub_group_by_key_and_window Z.eqb tumble_debug size off sps
+      else
+        let sps := map (stamp_u entry sel c evs) ps in
+        if stage =? 1 then
+          t <- key_by_window_unkeyed tumble_debug size off sps ;;
+          Ok (map (map (fun x : window * Z => ((0, fst x), [snd x]))) t)
+        else
+          g <- sub_group_by_window tumble_debug size off sps ;;
+          Ok (map (map (fun x : window * list Z => ((0, fst x), snd x))) g)
+  end.
+
+Definition ocell (o : option (list Z)) : cell := match o with Some l => CL l | None => CN end.
+Definition row_join (x : jkey * (option (list Z) * option (list Z))) : row :=
+  cells3 (fst (fst x)) (fst (snd (fst x))) (snd (snd (fst x))) ++ [ocell (fst (snd x)); ocell (snd (snd x))].
+
+Definition dec_jkind (z : Z) : option jkind :=
+  if z =? 0 then Some JInner else if z =? 1 then Some JLeft else if z =? 2 then Some JRight
+  else if z =? 3 then Some JFull else None.
+
+Definition model_wjoin (jk : jkind) (keyed : bool) (l r : sidespec) (parts : Z) : outcome (list row) :=
+  rows <- cogroup jkey_eqb jk (side_model keyed l parts) (side_model keyed r parts) ;;
+  Ok (map row_join rows).
+
+(* reference join: nested list comprehension over the two reference sides *)
+Definition ref_side_of (keyed : bool) (sp : sidespec) : list (list Z * list Z) :=
+  match sp with
+  | STab rows => map (fun r => match r with
+                               | [k; s; e; v] => ([(if keyed then k else 0); s; e], [v])
+                               | _ => ([], [])
+                               end) rows
+  | SWin stage entry sel c size off evs => ref_side entry sel c keyed size off evs stage
+  end.
+Definition ref_jrow (k : list Z) (l r : option (list Z)) : row := map CI k ++ [ocell l; ocell r].
+Definition ref_join (jk : jkind) (L R : list (list Z * list Z)) : list row :=
+  let inner := flat_map (fun l => flat_map (fun r => if zlist_eqb (fst l) (fst r)
+                                                     then [ref_jrow (fst l) (Some (snd l)) (Some (snd r))]
+                                                     else []) R) L in
+  let lonly := flat_map (fun l => if existsb (fun r => zlist_eqb (fst l) (fst r)) R then []
+                                  else [ref_jrow (fst l) (Some (snd l)) None]) L in
+  let ronly := flat_map (fun r => if existsb (fun l => zlist_eqb (fst l) (fst r)) L then []
+                                  else [ref_jrow (fst r) None (Some (snd r))]) R in
+  match jk with
+  | JInner => inner
+  | JLeft => inner ++ lonly
+  | JRight => inner ++ ronly
+  | JFull => inner ++ lonly ++ ronly
+  end.
+Definition side_vacuous (sp : sidespec) : bool :=
+  match sp with STab _ => false | SWin _ _ _ _ size _ _ => size <? 1 end.
+Definition side_known (sp : sidespec) : bool :=
+  match sp with
+  | STab _ => false
+  | SWin stage entry sel c size off evs => known_side entry sel c size off evs stage
+  end.
+
+Definition check_wjoin (input output : J) : verdict :=
+  match input, output with
+  | JL [JI jkz; jk; jl; jr; JI _xp; JL jruns], JL obs =>
+      match dec_jkind jkz, jflag jk, dec_side jl, dec_side jr, omap dec_runspec jruns with
+      | Some jkd, Some keyed, Some l, Some r, Some runs =>
+          let model := model_wjoin jkd keyed l r in
+          let ref_rows := ref_join jkd (ref_side_of keyed l) (ref_side_of keyed r) in
+          let vacuous := side_vacuous l || side_vacuous r in
+          match judge_runs 2 true vacuous model ref_rows runs obs with
+          | Some (a, p) => V a p (side_known l || side_known r) false
+          | None => malformed
+          end
+      | _, _, _, _, _ => malformed
+      end
+  | _, _ => malformed
+  end.
+
+(* ---------- big event sets given by a formula, observed through per-group digests ---------- *)
+Definition big_events (n t0 a m nk : Z) : list event :=
+  map (fun i => (i mod nk, (t0 + (i * a) mod m, i))) (iota (Z.to_nat n) 0).
+
+Definition dg_cells (d : dg) : list Z := let '(n, s, f, l) := d in [n; s; f; l].
+Definition dg_none : list Z := [-1; 0; 0; 0].
+Definition odg_cells (o : option dg) : list Z := match o with Some d => dg_cells d | None => dg_none end.
+Definition big_table (keyed : bool) (size nk wb nt : Z) : list (jkey * dg) :=
+  flat_map (fun j => map (fun k => ((k, (wb + j * size, wb + j * size + size)), digest [j]))
+                         (if keyed then iota (Z.to_nat nk) 0 else [0]))
+           (iota (Z.to_nat nt) 0).
+
+(* model: every event tagged by the model of Window::tumble, the one-pass digest table of the
+   grouping (= the digests of the model's groups for every partitioning: Props/C13.v,
+   c13_digest_table_correct), and the model join run on the digests *)
+Definition model_gbig (via : Z) (keyed : bool) (size off : Z) (evs : list event) (nk wb nt : Z)
+  : outcome (list (list Z)) :=
+  tagged <- map_outcome (fun e => w <- tumble_debug (ev_ts e) size off ;;
+                                  Ok (((if keyed then ev_k e else 0), w), ev_v e)) evs ;;
+  let groups := digest_table jkey_eqb tagged in
+  let krow (k : jkey) := [fst k; fst (snd k); snd (snd k)] in
+  if via =? 3 then
+    Ok (map (fun x : jkey * (option dg * option dg) => krow (fst x) ++ odg_cells (fst (snd x)) ++ odg_cells (snd (snd x)))
+            (join_exec jkey_eqb JInner groups (big_table keyed size nk wb nt)))
+  else if via =? 4 then
+    Ok (map (fun x : jkey * (option dg * option dg) => krow (fst x) ++ odg_cells (fst (snd x)) ++ odg_cells (snd (snd x)))
+            (join_exec jkey_eqb JLeft (big_table keyed size nk wb nt) groups))
+  else Ok (map (fun g => krow (fst g) ++ dg_cells (snd g)) groups).
+
+(* reference: floor-division windows, groups by filtering, digests by length / sum / hd / last *)
+Definition ref_digest (vs : list Z) : list Z :=
+  [Z.of_nat (List.length vs); fold_right Z.add 0 vs; hd 0 vs; last vs 0].
+Definition ref_gbig (via : Z) (keyed : bool) (size off : Z) (evs : list event) (nk wb nt : Z)
+  : list (list Z) :=
+  let key e := ref_key 0 0 0 keyed size off e in
+  let group k := map ev_v (filter (fun e => zlist_eqb (key e) k) evs) in
+  let table := flat_map (fun j => map (fun k => ([k; wb + j * size; wb + j * size + size], j))
+                                      (if keyed then iota (Z.to_nat nk) 0 else [0]))
+                        (iota (Z.to_nat nt) 0) in
+  if via =? 3 then
+    flat_map (fun t => match group (fst t) with
+                       | [] => []
+                       | vs => [fst t ++ ref_digest vs ++ ref_digest [snd t]]
+                       end) table
+  else if via =? 4 then
+    map (fun t => match group (fst t) with
+                  | [] => fst t ++ ref_digest [snd t] ++ dg_none
+                  | vs => fst t ++ ref_digest [snd t] ++ ref_digest vs
+                  end) table
+  else map (fun k => k ++ ref_digest (group k)) (dedup_l (map key evs)).
+
+Definition dec_zrow (j : J) : option (list Z) :=
+  match j with
+  | JL l => omap (fun x => match x with JI z => Some z | JS _ => ju64 x | _ => None end) l
+  | _ => None
+  end.
+
+Definition check_gbig (input output : J) : verdict :=
+  match input with
+  | JL [JI via; jk; js; jo; JI n; jt0; ja; jm; JI nk; JI _parts; JI _threads; jwb; JI nt] =>
+      match jflag jk, ju64 js, ju64 jo, ju64 jt0, ju64 ja, ju64 jm, ju64 jwb,
+            dec_list_outcome dec_zrow output with
+      | Some keyed, Some size, Some off, Some t0, Some a, Some m, Some wb, Some obs =>
+          if (0 <=? via) && (via <=? 4) && (0 <=? n) && (1 <=? m) && (1 <=? nk) && (0 <=? nt)
+             && (t0 + m <=? U64) && (n * a <? U64) && (wb + (nt + 1) * size <? U64) then
+            let evs := big_events n t0 a m nk in
+            V (loutcome_agree obs (model_gbig via keyed size off evs nk wb nt))
+              (if size <? 1 then true
+               else match obs with
+                    | LOk rows => lmultiset_eqb rows (ref_gbig via keyed size off evs nk wb nt)
+                    | _ => false
+                    end)
+              (known_events size off evs) false
+          else malformed
+      | _, _, _, _, _, _, _, _ => malformed
+      end
+  | _ => malformed
+  end.
+
+(* ---------- Window::new ---------- *)
+Definition check_wnew (input output : J) : verdict :=
+  match input with
+  | JL [js; je] =>
+      match ju64 js, ju64 je with
+      | Some s, Some e =>
+          let obs := match output with
+                     | JL [t] => if jtag_is "panic" t then Some None else None
+                     | JL [t; w1; w2] =>
+                         if jtag_is "ok" t then
+                           match dec_window w1, dec_window w2 with
+                           | Some a, Some b => Some (Some (a, b))
+                           | _, _ => None
+                           end
+                         else None
+                     | _ => None
+                     end in
+          match obs with
+          | Some o =>
+              let agree := match o, window_new_debug s e with
+                           | Some (a, b), Ok w => window_eqb a w && window_eqb b w
+                           | None, Panic => true
+                           | _, _ => false
+                           end in
+              (* reference: a window is returned (and survives serde) iff end >= start *)
+              let prop := match o with
+                          | Some (a, b) => (s <=? e) && zlist_eqb [fst a; snd a; fst b; snd b] [s; e; s; e]
+                          | None => e <? s
+                          end in
+              ok_verdict agree prop
+          | None => malformed
+          end
+      | _, _ => malformed
+      end
+  | _ => malformed
+  end.
+
 Definition check_C13 (kind : string) (input output : J) : verdict :=
-  if String.eqb kind "tumble" then
+  if String.eqb kind "tsp" then check_tsp input output
+  else if String.eqb kind "wjoin" then check_wjoin input output
+  else if String.eqb kind "gbig" then check_gbig input output
+  else if String.eqb kind "wnew" then check_wnew input output
+  else if String.eqb kind "tumble" then
     match input with
     | JL [jt; js; jo] =>
         match ju64 jt, ju64 js, ju64 jo, dec_outcome output with
